@@ -411,6 +411,14 @@ def check(run):
                 run.violation("failing-input", {"kind": "x64-shadowed-form", "mnemonic": m, "forms": ix},
                               f"`{probe[3:]}` is rejected ({a[:90]}) although form #{ix} of `{m}` only needs the enabled feature: an earlier form with the same operand format shadows it",
                               {"stream": "plug", "input": [probe], "impl": [a]})
+            elif probe and a.startswith("ok"):
+                # the later form is reachable after all: then the bytes must not depend on what else is enabled
+                more = probe.replace(".feature sse41", ".feature sse41, sse2")
+                b = plug([more])[0]
+                if b != a:
+                    run.violation("failing-input", {"kind": "x64-feature-instability", "mnemonic": m},
+                                  f"`{probe[3:]}` assembles to {a[:60]} but with one more feature enabled (`{more[3:]}`) to {b[:60]}: enabling more features must never change the bytes of an accepted instruction",
+                                  {"stream": "plug", "input": [probe, more], "impl": [a, b]})
             elif not probe:
                 run.violation("broken-obligation", {"kind": "x64-shadowed-form", "mnemonic": m, "forms": ix},
                               f"the table has a shadowed form #{ix} of `{m}` (same operand format as an earlier form, different features)", found_input=False)
